@@ -38,6 +38,8 @@ def repo_fingerprint(extra=()):
             h.update(fh.read())
     return h.hexdigest()[:16]
 
+EXTRA_OVERLAYS = {}      # virtual path under REPO -> generator(source text) -> text ; set by checks that instrument a source file
+
 def harness_overlays():
     """(virtual path -> real path) for prims and harness files of all packages"""
     gen = os.path.join(CACHE, 'gen')
@@ -54,6 +56,16 @@ def harness_overlays():
         ov[os.path.join(REPO, sub, 'zz_verif_prims.go')] = p
         for f in sorted(glob.glob(os.path.join(VERIF, 'harness', pkg, '*.go'))):
             ov[os.path.join(REPO, sub, os.path.basename(f))] = f
+    # instrumented copies of repository files, regenerated from the working tree
+    for rel, genf in EXTRA_OVERLAYS.items():
+        src = open(os.path.join(REPO, rel)).read()
+        body = genf(src)
+        d = os.path.join(gen, 'instrumented')
+        os.makedirs(d, exist_ok=True)
+        p = os.path.join(d, rel.replace('/', '__'))
+        if not os.path.exists(p) or open(p).read() != body:
+            open(p, 'w').write(body)
+        ov[os.path.join(REPO, rel)] = p
     return ov
 
 def dump_ssa(tags=HARNESS_TAG, cgo=True, name='ssa', extra_args=()):
@@ -106,10 +118,25 @@ func TestVerifReplay(t *testing.T) {
 	for _, l := range VerifReached {
 		t.Logf("VERIF-REPLAY: REACHED %%s", l)
 	}
+	// harnesses with logical threads: the closures also run as free goroutines (meaningful with -race)
+	if VerifUsedThreads {
+		VerifFreeRun = true
+		for k := 0; k < 40; k++ {
+			f2, p2, _ := VerifReplay(tape, %(fn)s)
+			if p2 != nil {
+				t.Logf("VERIF-REPLAY: PANIC (free run) %%v", p2)
+				t.Fail()
+			}
+			for _, f := range f2 {
+				t.Logf("VERIF-REPLAY: ASSERT-FAILED (free run) %%s", f)
+				t.Fail()
+			}
+		}
+	}
 }
 '''
 
-def write_replay(prop, case, pkg, fn, tape, note='', go_flags=''):
+def write_replay(prop, case, pkg, fn, tape, note='', go_flags='', tags=HARNESS_TAG):
     """write a self-contained replay directory; returns its path"""
     d = os.path.join(VERIF, 'replays', prop, case)
     os.makedirs(d, exist_ok=True)
@@ -130,8 +157,8 @@ def write_replay(prop, case, pkg, fn, tape, note='', go_flags=''):
 # replay of a solver counterexample against the natively built package
 # %s
 export PATH=/opt/veriftools/go1.26.8/bin:$PATH GOFLAGS=-mod=mod GOPROXY=off GOSUMDB=off GOTOOLCHAIN=local
-cd %s && exec go test %s -tags verif_harness -vet=off -count=1 -v -overlay %s -run 'TestVerifReplay$' .
-''' % (note.replace('\n', ' '), os.path.join(REPO, sub), go_flags, os.path.join(d, 'overlay.json')))
+cd %s && exec go test %s -tags %s -vet=off -count=1 -v -overlay %s -run 'TestVerifReplay$' .
+''' % (note.replace('\n', ' '), os.path.join(REPO, sub), go_flags, tags, os.path.join(d, 'overlay.json')))
     os.chmod(run, 0o755)
     return d
 
